@@ -2,6 +2,7 @@ import AwsVerif.Proofs.C18.Order
 import AwsVerif.Proofs.C18.Stamp
 import AwsVerif.Proofs.C18.Dtor
 import AwsVerif.Proofs.C18.ImplRun
+import AwsVerif.Gen.CachePolicy
 /-!
 C18 — linked hash table keeps insertion order; caches evict by their stated policy.
 
@@ -17,6 +18,29 @@ with ghost clocks `putAt` / `usedAt` (time of last insertion / last use of an id
 -/
 namespace AwsVerif.Props.C18
 open AwsVerif.Lht
+
+/-! ### c18_gen_policy — the eviction policy of the model is the one written in the three cache sources -/
+
+/-- what a victim code of `Gen/CachePolicy.lean` selects from the iteration list (front … back) -/
+def victimOf (code : Nat) (es : List Entry) : Option Key :=
+  if code = 0 then es.head?.map (·.1)
+  else if code = 1 then es.dropLast.getLast?.map (·.1)
+  else if code = 2 then es.getLast?.map (·.1)
+  else none        -- front->prev is the list head sentinel: no element
+
+/-- [A] the model's `evictKey` / overflow test are the ones `s_fifo_cache_put`, `s_lifo_cache_put` and `s_lru_cache_put`
+contain (shape and operator re-read from the three sources on every run by `props/c18.py`): FIFO and LRU remove the key of
+`aws_linked_list_front(list)`, LIFO that of `aws_linked_list_back(list)->prev`, each exactly when the element count after
+the insertion exceeds `max_items`.  So `c18_victim_fifo` / `_lifo` / `_lru` and `c18_bound` speak about the policy as
+written. -/
+theorem c18_gen_policy (es : List Entry) (count max : Nat) :
+    evictKey .fifo es = victimOf AwsVerif.Gen.CachePolicy.fifoVictim es ∧
+    evictKey .lifo es = victimOf AwsVerif.Gen.CachePolicy.lifoVictim es ∧
+    evictKey .lru es = victimOf AwsVerif.Gen.CachePolicy.lruVictim es ∧
+    (AwsVerif.Gen.CachePolicy.fifoOverflows count max = decide (count > max)) ∧
+    (AwsVerif.Gen.CachePolicy.lifoOverflows count max = decide (count > max)) ∧
+    (AwsVerif.Gen.CachePolicy.lruOverflows count max = decide (count > max)) :=
+  ⟨rfl, rfl, rfl, rfl, rfl, rfl⟩
 
 /-! ### c18_order -/
 
